@@ -25,6 +25,10 @@ impl Method {
 /// str::to_uppercase (W1 `.to_uppercase()` -> `.to_uppercase_()`): an uninterpreted function of the text
 pub uninterp spec fn upper(s: Seq<char>) -> Seq<char>;
 pub trait ToStringSame { fn to_string_(&self) -> String; }
+impl ToStringSame for str {
+    #[verifier::external_body]
+    fn to_string_(&self) -> (r: String) ensures r@ == self@ { unimplemented!() }
+}
 impl ToStringSame for String {
     #[verifier::external_body]
     fn to_string_(&self) -> (r: String) ensures r@ == self@ { unimplemented!() }
